@@ -114,6 +114,7 @@ type loopInfo struct {
 	// head snapshot
 	headState  *State
 	headPhis   map[*ssa.Phi]string
+	entryPhis  map[*ssa.Phi]string
 	measure    string
 	isRange    *ssa.Phi // rangeindex phi if any
 	pending    []*pendingObl
